@@ -261,6 +261,50 @@ def put_obligation(ctx, R, prover):
                  ["HubClient::put"], None, covers={"ok-reachable": ok})
 
 
+def list_filter_obligation(R, prover, maxlen=8):
+    """serve()'s List arm: the predicate that hides entries from the listing, from MIR, on symbolic path strings:
+    hidden <=> the FIRST COMPONENT is `.copia` (the control directory) - nothing else may be hidden, or the client would
+    re-send it on every run"""
+    from . import hublib
+    from .planlib import sym_str
+    hctx = hublib.Ctx()
+    ex = hctx.ex(K=maxlen + 3)
+    stdmodels.install_strings(ex, maxlen)
+    ex.models = [(re.compile(r"^<PathBuf as Deref>::deref$|^<(std::string::)?String as Deref>::deref$|^PathBuf::as_path$"),
+                  lambda ex_, st, a, d, f, w: VRef("val", val=stdmodels._str_of(ex_, st, a[0])), "PathBuf/String deref (the same characters)")] + ex.models
+    cands = []
+    for name, fns in hctx.mir.fns.items():
+        if name.startswith("serve::{closure#"):
+            for f in fns:
+                if getattr(f, "parsed", False) and f.ret.strip() == "bool" and len(f.args) == 2:
+                    cands.append(f)
+    if len(cands) != 1:
+        raise Inconclusive("expected exactly one boolean filter closure in serve(), found %d" % len(cands))
+    fn = cands[0]
+    s_val, ln, cs = sym_str(ex, "rel", maxlen, ".copia/x")
+    ex.assumes += [ln >= 1]
+    argty = fn.args[1][1]
+    key = s_val if "PathBuf" in argty.split(",")[0] else VStruct("String", [s_val])
+    st = State()
+    res = ex.exec_fn(fn, [VRef("val", val=VStruct("closure", [])), VRef("val", val=VStruct("(tuple)", [key, VOpaque("fingerprint")]))], st)
+    if res is None:
+        raise Inconclusive("the List filter never returns")
+    ex.exit_guards.append(st.guard)
+    lit = ".copia"
+    first_is = z3.And(ln >= len(lit), *[cs[i] == ord(ch) for i, ch in enumerate(lit)], z3.Or(ln == len(lit), cs[len(lit)] == ord("/")) if maxlen > len(lit) else ln == len(lit))
+    goals = {"List-hides-an-entry-exactly-when-its-first-component-is-the-.copia-control-directory": res.t == z3.Not(first_is)}
+
+    def witness(name, model, neg):
+        n = model_int(model, ln)
+        rel = "".join(chr(model_int(model, c)) for c in cs[:n]).strip("/") or ".copiax"
+        rel = rel.replace("//", "/")
+        case = {"fn": "hub_sync", "local": {rel: hubnative.hx(b"v"), "plain": hubnative.hx(b"p")}, "hub": {}}
+        return conformance(R, [case, {"fn": "hub_sync", "local": {".copiaignore": hubnative.hx(b"i"), ".copia-cache/index": hubnative.hx(b"c"), "plain": hubnative.hx(b"p")}, "hub": {}}],
+                           "C13/serve-list-filter", "C13/serve-list-filter")
+    prover.prove(ex, goals, "C13/serve-list-filter", "every relative path string of length 1..%d over {. c o p i a / x}" % maxlen, [fn.name], witness,
+                 covers={"hidden-reachable": z3.Not(res.t), "shown-reachable": res.t})
+
+
 def conformance(R, extra, oid, key):
     cases = list(extra) + scenarios()
     for prof in ("dev", "release"):
@@ -282,7 +326,8 @@ def scenarios():
             {"fn": "hub_sync", "local": {"a": c("1"), "d/b": c("2")}, "hub": {"a": c("1"), "other": c("o")}},
             {"fn": "hub_sync", "local": {"a": c("1"), "b": c("2"), "c": c("3")}, "hub": {"a": c("x"), "b": c("2"), "z/keep": c("k")}},
             {"fn": "hub_sync", "local": {}, "hub": {"keep": c("k")}},
-            {"fn": "hub_sync", "local": {"e": ""}, "hub": {"e": c("non-empty")}}]
+            {"fn": "hub_sync", "local": {"e": ""}, "hub": {"e": c("non-empty")}},
+            {"fn": "hub_sync", "local": {".copiaignore": c("i"), ".copia-cache/index": c("x"), "sub/.copia": c("s"), "plain": c("p")}, "hub": {}}]
 
 
 def judge(case, r):
@@ -312,7 +357,8 @@ def run(R, tier, seed):
                       "overwrite what that client committed (decided there)"]
     ctx = Ctx()
     prover = Prover(R, tier)
-    for what, f in (("hub_sync", lambda: sync_obligation(ctx, R, prover, 2 if tier == "quick" else 3)), ("HubClient::put", lambda: put_obligation(ctx, R, prover))):
+    for what, f in (("hub_sync", lambda: sync_obligation(ctx, R, prover, 2 if tier == "quick" else 3)), ("HubClient::put", lambda: put_obligation(ctx, R, prover)),
+                    ("serve-list-filter", lambda: list_filter_obligation(R, prover, 8 if tier == "quick" else 10))):
         try:
             f()
         except (Inconclusive, Unsupported) as e:
